@@ -52,10 +52,21 @@ def cval(v) -> str:
     raise ValueError(f"value outside the modelled alphabet: {v!r}")
 
 
+_SAFE = set("ABCDEFGHIJKLMNOPQRSTUVWXYZabcdefghijklmnopqrstuvwxyz0123456789_.-")
+
+
+def ckey(k: str) -> str:
+    """injective ASCII token for an attribute key (the model only compares keys): unsafe characters as %XXXXXX;
+    the empty key as %"""
+    if k == "":
+        return "%"
+    return "".join(c if c in _SAFE else f"%{ord(c):06x}" for c in k)
+
+
 def cpatch(p: dict) -> str:
     if not p:
         return "-"
-    return ",".join(f"{k}={cval(v)}" for k, v in p.items())
+    return ",".join(f"{ckey(k)}={cval(v)}" for k, v in p.items())
 
 
 # ------------------------------------------------------------------------------------------------
@@ -101,7 +112,7 @@ class Sut:
             " "
             + ",".join(f"{f}={cval(getattr(o, f))}" for f in FIELDS)
             + ";"
-            + ",".join(f"{k}={cval(v)}" for k, v in o._Repeater__attrs.items())
+            + ",".join(f"{ckey(k)}={cval(v)}" for k, v in o._Repeater__attrs.items())
             + " |"
             for o in self.created
         )
@@ -147,11 +158,11 @@ class Sut:
                 r = st.match_uuid(v)
             elif kind == "attr":
                 _, ref, k, v = op
-                line = f"attr {ref} {k} {cval(v)}"
+                line = f"attr {ref} {ckey(k)} {cval(v)}"
                 r = self.created[ref].attr(k, v)
             elif kind == "del":
                 _, ref, k = op
-                line = f"del {ref} {k}"
+                line = f"del {ref} {ckey(k)}"
                 r = self.created[ref].delete_attr(k)
             elif kind == "patch":
                 _, ref, p = op
@@ -208,10 +219,14 @@ def fresh_fields(index, address):
 class Oracle:
     """checks C20 as stated, on the real objects, while a history satisfying the preconditions runs"""
 
-    def __init__(self, ctx, sut, history):
+    def __init__(self, ctx, sut, history, watch_keys=()):
         self.ctx, self.sut, self.history = ctx, sut, history
         self.last_for_addr = {}  # address -> (object, id) returned by match_incoming since the last address_in assignment
         self.n = 0
+        # what attr(key) has to answer, per created object, from the operations alone (public API only);
+        # `watch` = the keys read back after every operation: every key used so far plus the given siblings
+        self.exp_attrs = []
+        self.watch = list(watch_keys)
 
     def fail(self, kind, what, expected=None, actual=None):
         self.ctx.count(f"oracle-failure:{kind}")
@@ -287,6 +302,31 @@ class Oracle:
         if snap1 != exp:
             diff = [i for i in range(max(len(snap1), len(exp))) if i >= len(snap1) or i >= len(exp) or snap1[i] != exp[i]]
             self.fail("patch-not-local", f"{op[0]}: records {diff} differ from 'exactly the named fields of the matched record changed'", expected=str([exp[i] for i in diff if i < len(exp)])[:400], actual=str([snap1[i] for i in diff if i < len(snap1)])[:400])
+        # ---- the same through the public API: attr(key) of every record for every key in play
+        while len(self.exp_attrs) < len(sut.created):
+            self.exp_attrs.append({})
+        if not raised and target is not None:
+            ti = sut.index(target)
+            p = patch_of(op)
+            for k, v in p.items():
+                if k not in FIELDS:
+                    if k not in self.watch:
+                        self.watch.append(k)
+                    if v is not None:
+                        self.exp_attrs[ti][k] = v
+            if op[0] == "attr":
+                if op[2] not in self.watch:
+                    self.watch.append(op[2])
+                if op[3] is not None:
+                    self.exp_attrs[ti][op[2]] = op[3]
+            elif op[0] == "del":
+                self.exp_attrs[ti].pop(op[2], None)
+        for i, o in enumerate(sut.created):
+            for k in self.watch:
+                got = o.attr(k)
+                want = self.exp_attrs[i].get(k)
+                if got != want or (got is None) != (want is None):
+                    self.fail("attribute-readback", f"attr({k!r}) of record {i} after {op[0]}: another key / record changed it or the write was lost", expected=str(want), actual=str(got))
         # ---- bookkeeping for the identity check
         if "address_in" in patch_of(op) and not raised:
             self.last_for_addr = {}
@@ -391,12 +431,12 @@ def resolve(sut, op):
     return op
 
 
-def run_sequence(ctx, ops, pairs, stream, dump_every=0):
+def run_sequence(ctx, ops, pairs, stream, dump_every=0, watch=()):
     """runs one history on a fresh storage; returns False if it was inapplicable / left the preconditions"""
     sut = Sut()
     try:
         history = []
-        oracle = Oracle(ctx, sut, history) if stream == "ok" else None
+        oracle = Oracle(ctx, sut, history, watch) if stream == "ok" else None
         local = [("reset", "ok")]
         for n, op in enumerate(ops):
             op = resolve(sut, op)
@@ -456,10 +496,26 @@ def op_unjson(o):
     return tuple(u(x) for x in o)
 
 
+# attribute keys that are different names but become equal under some plausible normalisation (suffix / character
+# set stripping, case folding, whitespace, Unicode normalisation, prefix matching, numeric reading): a patch naming
+# one of them must not touch the others
+KEY_FAMILIES = [
+    ["k.10.0", "k.1.0", "k.1", "k.10", "k.100.0", "k", "k.0", "k.", "k.00"],  # SNMP-like instance suffixes
+    ["1.3.6.1.4.1.40297.1.2.4.10.0", "1.3.6.1.4.1.40297.1.2.4.1.0", "1.3.6.1.4.1.40297.1.2.4.1", "1.3.6.1.4.1.40297.1.2.1.2.10.0", "1.3.6.1.4.1.40297.1.2.1.2.1.0"],
+    ["rx_freq", "RX_FREQ", "Rx_Freq", "rx-freq", "rxfreq", "rx_freq ", " rx_freq", "rx_freq\t", "rx_freq\n"],  # case / separators / whitespace
+    ["key", "key2", "ke", "keykey", "key_", "_key", "__key", "key__", "_Repeater__key"],  # prefixes, name mangling look-alikes
+    ["\u00e9", "e\u0301", "E\u0301", "\u00c9", "e", "\uff4b", "k\u200b", "\u212a"],  # NFC/NFD, width, zero width, Kelvin sign
+    ["0", "00", "0.0", ".0", "+0", "-0", "0x0", "", "None", "False"],  # numeric / empty / literal look-alikes
+    ["a=b", "a,b", "a b", "a%3Db", "a;b", "a|b", "a\\b", "a/b"],  # separators of the harness' own line protocol
+]
+
+
 def random_op(rng, sut, stream):
     addrs = [A0, A1, A2, A3, ("10.0.0.3", 1)]
-    vals = [None, 0, 1, 7, True, False, "", "AB", "x", A0, A2, ("", 0)]
+    vals = [None, 0, 1, 7, True, False, "", "AB", "x", A0, A2, ("", 0), 2**70, "v" * 300]
     dyn = ["k", "m", "p2p_is_registered", "rx_freq"]
+    if rng.random() < 0.35:
+        dyn = rng.choice(KEY_FAMILIES)
     fields = FIELDS[1:] if stream == "ok" else FIELDS
 
     def patch():
@@ -504,6 +560,117 @@ def random_op(rng, sut, stream):
     if c < 86:
         return ("del", ref, rng.choice(dyn))
     return ("patch", ref, patch())
+
+
+def run_keys(ctx, family, pairs):
+    """one record (and a bystander) over a family of look-alike keys: every key gets its own value through one of the
+    four write paths, then keys are re-patched, set to None and deleted one by one; attr() of every key of the family
+    (and of the bystander) is read back after every operation"""
+    rng = ctx.rng
+    ops = [("mi", A0, True, {}), ("mi", A1, True, {})]
+    ways = ["mi", "save", "patch", "attr"]
+    order = list(family)
+    rng.shuffle(order)
+    for n, k in enumerate(order):
+        v = rng.choice([n + 1, f"v{n}", (f"10.9.{n}.1", n)])
+        w = ways[(n + rng.randrange(4)) % 4]
+        ops.append({"mi": ("mi", A0, False, {k: v}), "save": ("save", 0, {k: v}), "patch": ("patch", 0, {k: v}), "attr": ("attr", 0, k, v)}[w])
+    for n, k in enumerate(order):
+        c = (n + rng.randrange(3)) % 3
+        ops.append([("patch", 0, {k: f"second{n}"}), ("del", 0, k), ("save", 0, {k: None, "other": n})][c])
+        if n % 3 == 0:
+            ops.append(("del", 1, k))  # the bystander never had it: KeyError, nothing changes
+    ok = run_sequence(ctx, ops, pairs, "ok", watch=family)
+    assert ok
+    ctx.count("keys:families")
+    ctx.count("keys:operations", len(ops))
+
+
+def address_no(i):
+    return (f"10.{(i >> 16) & 255}.{(i >> 8) & 255}.{i & 255}", 30000 + (i % 1000))
+
+
+def run_scale(ctx, n_records, pairs, flush):
+    """many records: n_records auto-creating lookups of pairwise distinct addresses (most of them never identified,
+    some patched), then every kind of lookup for old / middle / new addresses.  Internal thresholds (caches, bounded
+    tables, resizing) show up as a wrong len(storage), a lost record or a changed identity."""
+    sut = Sut()
+    rng = ctx.rng
+    try:
+        local = [("reset", "ok")]
+        objs = []
+
+        def fail(kind, what, i, expected=None, actual=None):
+            ctx.count(f"oracle-failure:{kind}")
+            if len(ctx.failures) < 200:
+                ctx.fail(kind, {"scale": n_records, "at": i, "stream": "scale"}, what, expected=expected, actual=actual)
+
+        def do(op):
+            line, out, raw = sut.apply(op)
+            local.append((line, out))
+            return raw
+
+        for i in range(n_records):
+            p = {}
+            if i % 7 == 3:
+                p = {"dmr_id": 1000 + i}
+            elif i % 5 == 1:
+                p = {"k": i}
+            raw = do(("mi", address_no(i), True, p))
+            if isinstance(raw, BaseException) or any(raw is o for o in objs[-3:]) or sut.index(raw) != i:
+                fail("creation-rule", "auto-creating lookup of an unseen address did not return a new record", i)
+                return
+            objs.append(raw)
+            if len(sut.storage) != i + 1:
+                fail("creation-rule", f"len(storage) after {i + 1} creating lookups of distinct addresses", i, expected=i + 1, actual=len(sut.storage))
+                return
+            if i % 97 == 0 and i:
+                j = rng.randrange(i)
+                r = do(("mi", address_no(j), False, {}))
+                if r is not objs[j]:
+                    fail("identity-changed", f"lookup of address #{j} after {i + 1} records returned another object / None", i, expected=f"obj{j}", actual=sut.res(r) if not isinstance(r, BaseException) else impl_error(r))
+                    return
+        ctx.count("scale:records", n_records)
+        probe = sorted(set(list(range(0, 25)) + [rng.randrange(n_records) for _ in range(40)] + list(range(n_records - 10, n_records))))
+        for j in probe:
+            for op in (("mi", address_no(j), rng.random() < 0.5, {}), ("mu", _uuid.UUID(int=j)), ("ma", "address_in", address_no(j))):
+                r = do(op)
+                if r is not objs[j]:
+                    fail("identity-changed", f"{op[0]} for record #{j} of {n_records} returned another object / None / raised", j, expected=f"obj{j}", actual=sut.res(r) if not isinstance(r, BaseException) else impl_error(r))
+            if len(sut.storage) != n_records:
+                fail("lookup-grew-storage", "len(storage) changed during lookups of stored addresses", j, expected=n_records, actual=len(sut.storage))
+                return
+            want = j if j % 5 == 1 and j % 7 != 3 else None
+            got = objs[j].attr("k")
+            if got != want:
+                fail("attribute-readback", f"attr('k') of record #{j}", j, expected=want, actual=got)
+            if objs[j].id != _uuid.UUID(int=j):
+                fail("identity-changed", f"id of record #{j} changed", j)
+        ids = [o.id for o in sut.storage.all()]
+        if len(set(ids)) != len(ids):
+            fail("duplicate-id", "two stored records have the same id", n_records)
+        local.append(("dump", sut.dump()))
+        pairs.extend(local)
+        flush("storage.scale")
+        ctx.case(("scale", n_records), sample={"stream": "scale", "records": n_records})
+    finally:
+        sut.close()
+
+
+def run_wide(ctx, pairs):
+    """one record with many attributes / long patches / long histories (sibling of the scale stream)"""
+    nkeys = 300
+    big = {f"attr{n:03d}": n for n in range(nkeys)}
+    ops = [("mi", A0, True, {}), ("mi", A1, True, dict(big)), ("patch", 0, {f"attr{n:03d}": -0 + n * 2 for n in range(0, nkeys, 2)})]
+    ops += [("attr", 0, f"attr{n:03d}", f"s{n}") for n in range(1, nkeys, 17)]
+    ops += [("del", 1, f"attr{n:03d}") for n in range(0, nkeys, 13)]
+    ops += [("save", 1, {"callsign": "C" * 5000, "serial": "S", "wide": 2**200})]
+    for n in range(400):
+        ops.append(("patch", n % 2, {"counter": n}))
+    ok = run_sequence(ctx, ops, pairs, "ok", watch=["attr000", "attr001", "attr013", "attr299", "counter", "wide"])
+    assert ok
+    ctx.count("wide:operations", len(ops))
+    ctx.case(("wide", nkeys))
 
 
 def run_random(ctx, length, pairs, stream):
@@ -575,7 +742,11 @@ def _run(ctx):
         "histories of the eight storage operations on a fresh RepeaterStorage: a corpus, every sequence up to "
         "length 5 (quick) / 6 (thorough) over four pools of 8 operations (3 addresses, two sharing an IP; patches with "
         "data members, dynamic attributes and None values; error outcomes), random histories up to length 300 over a "
-        "larger pool; stream 'ok' respects the two preconditions of the theorems (no patch assigns id; address_in is "
+        "larger pool (incl. families of look-alike attribute keys); a key stream (7 families of names that collide under "
+        "suffix/character stripping, case folding, whitespace, Unicode normalisation, prefixes, numeric reading: every key written "
+        "through all four write paths, re-patched, deleted, all read back through attr() after every operation); a scale stream "
+        "(300 / 1100 records in quick, up to 4200 in thorough: len, identity, ids and attributes of old / middle / new records; "
+        "one record with 300 attributes, long values and 400 successive patches); stream 'ok' respects the two preconditions of the theorems (no patch assigns id; address_in is "
         "only assigned a value no other record holds) and is checked against the property as stated, stream 'cross' "
         "crosses them and is checked for model = code and unique dictionary keys. A history is distinct by its "
         "operation list; non-trivial = at least one record exists"
@@ -601,6 +772,17 @@ def _run(ctx):
         ctx.case(("corpus", str(seq)))
         assert ok, "corpus sequence left the preconditions"
     flush(ctx, "storage.corpus", pairs)
+    # ---- look-alike keys: names that collide under some normalisation must stay separate attributes
+    for rep in range(2 if not ctx.thorough() else 6):
+        for fam in KEY_FAMILIES:
+            run_keys(ctx, fam, pairs)
+            ctx.case(("keys", rep, fam[0]))
+    flush(ctx, "storage.keys", pairs)
+    # ---- scale: internal thresholds (bounded tables, caches) only show with many records / attributes
+    run_wide(ctx, pairs)
+    flush(ctx, "storage.wide", pairs)
+    for n_records in ([300, 1100] if not ctx.thorough() else [300, 1100, 2100, 4200]):
+        run_scale(ctx, n_records + ctx.seed % 7, pairs, lambda comp: flush(ctx, comp, pairs))
     # ---- exhaustive short histories
     maxlen = 6 if ctx.thorough() else 5
     if ctx.boost > 1:
